@@ -61,6 +61,10 @@ def _run_items(prop, items, verbose=True):
                 if not all(ck.results[o.uid]['status'] == 'proved' for o in obs):
                     failed.append(name)
             expect_fail = m.get('expect', 'fail') == 'fail'
+            if not expect_fail:
+                # an undecided obligation of a function whose text is the baseline text is solver noise here (this harness runs without the
+                # check's retry on unchanged functions): it does not count against a negative control
+                failed = [n for n in failed if ck.function_changed(groups[n][0].func) or any(ck.results[o.uid]['status'] == 'failed' for o in groups[n])]
             base_fb = getattr(run_catalogue, '_base_fb', None)
             ok = bool(failed) == expect_fail and not ck.problems
             new_fb = [f['function'] for f in ck.fallbacks]
